@@ -121,9 +121,10 @@ def record_trace(i, seed_kind):
     with warnings.catch_warnings():
         warnings.simplefilter('ignore')
         with recgen.recording(chi) as rec:
-            begin = dict(e='Begin', seed_kind=seed_kind, gen_key=['none', 'none'], gen_pos=0)
-            if seed_kind == 'int':
-                seed = 11
+            begin = dict(e='Begin', seed_kind=seed_kind.split(':')[0], gen_key=['none', 'none'], gen_pos=0)
+            if seed_kind.startswith('int'):
+                # integer seeds: an ordinary one, zero (a legal seed that is falsy) and a NumPy integer
+                seed = {'int': 11, 'int:zero': 0, 'int:np': np.int64(5)}[seed_kind]
             elif seed_kind == 'none':
                 seed = None
             else:
@@ -165,6 +166,15 @@ def pattern_case(i):
             b = np.asarray(fn(7), dtype=float)
             if a.shape != b.shape or not np.array_equal(a, b):
                 out.append(('Reproducible', 'same_seed_differs', dict(first=a.flatten()[:4].tolist(), second=b.flatten()[:4].tolist())))
+            for s0 in (0, np.int64(3)):                # zero is a seed like any other; so is a NumPy integer
+                np.random.seed(303)
+                a0 = np.asarray(fn(s0), dtype=float)
+                np.random.seed(404)
+                np.random.normal(size=2)
+                b0 = np.asarray(fn(s0), dtype=float)
+                if a0.shape != b0.shape or not np.array_equal(a0, b0):
+                    out.append(('Reproducible', 'same_seed_differs', dict(seed=repr(s0), first=a0.flatten()[:4].tolist(),
+                                                                          second=b0.flatten()[:4].tolist())))
             if ep['stochastic'] and not ep['discrete']:   # finitely many outcomes may coincide by chance
                 np.random.seed(101)
                 c = np.asarray(fn(8), dtype=float)
